@@ -22,6 +22,8 @@ func main() {
 		runQuant()
 	case "dist":
 		runDist()
+	case "path":
+		runPath()
 	case "search":
 		runSearch(os.Args[2])
 	default:
